@@ -318,10 +318,16 @@ class RDFWriter(object):
 
             # Ignore "id" and empty values, but make sure the content of "value"
             # is only accessed via its non deprecated property "values".
-            if k == "id" or not curr_val:
+            # An uncertainty of 0 is not empty.
+            if k == "id" or (not curr_val and not (k == "uncertainty" and curr_val == 0
+                                                    and curr_val is not False)):
                 continue
 
             if k == "value":
+                # odML tuples have no RDF equivalent, export their text form "(a;b)",
+                # which is what a Property of an n-tuple dtype parses on import.
+                if prop.dtype and prop.dtype.endswith("-tuple"):
+                    curr_val = ["(%s)" % ";".join(val) for val in curr_val]
                 # generating nodes for Property values
                 self.save_odml_values(curr_node, curr_pred, curr_val)
             else:
